@@ -574,6 +574,87 @@ pub fn open(op: Opener, m: &Material) -> Option<Opened> {
     })
 }
 
+
+/// Stream only: pull the (faulted) material, and if it was rejected, pull `authentic` on the SAME pull state.
+/// Returns (result of the faulted pull, result of the follow-up authentic pull if it was attempted).
+pub fn stream_pull_then_authentic(op: Opener, faulted: &Material, authentic: &Material) -> Option<(Result<Vec<u8>, String>, Option<Result<Vec<u8>, String>>)> {
+    if faulted.kind != Kind::Stream || authentic.kind != Kind::Stream {
+        return None;
+    }
+    // the follow-up only makes sense when key/header/prior are those of the authentic stream
+    if faulted.key != authentic.key || faulted.header != authentic.header {
+        return None;
+    }
+    let key: [u8; 32] = a(&authentic.key);
+    let header: [u8; 24] = a(&authentic.header);
+    match op {
+        Opener::StreamPull => {
+            let mut st = css::State::new();
+            css::crypto_secretstream_xchacha20poly1305_init_pull(&mut st, &header, &key);
+            for p in &authentic.prior {
+                let mut pm = vec![0u8; p.len().saturating_sub(17)];
+                let mut t = 0u8;
+                css::crypto_secretstream_xchacha20poly1305_pull(&mut st, &mut pm, &mut t, p, None).ok()?;
+            }
+            let w = faulted.wire();
+            let mut buf = vec![0u8; w.len().saturating_sub(17)];
+            let mut tag = 0u8;
+            let r1 = css::crypto_secretstream_xchacha20poly1305_pull(&mut st, &mut buf, &mut tag, &w, faulted.ad.as_ref().map(|h| h.0.as_slice())).map(|n| buf[..n].to_vec()).map_err(|e| format!("{e:?}"));
+            if r1.is_ok() {
+                return Some((r1, None));
+            }
+            let w2 = authentic.wire();
+            let mut buf2 = vec![0u8; w2.len().saturating_sub(17)];
+            let r2 = css::crypto_secretstream_xchacha20poly1305_pull(&mut st, &mut buf2, &mut tag, &w2, authentic.ad.as_ref().map(|h| h.0.as_slice())).map(|n| buf2[..n].to_vec()).map_err(|e| format!("{e:?}"));
+            Some((r1, Some(r2)))
+        }
+        Opener::StreamObjPull => {
+            let mut s = DryocStream::init_pull(&key, &header);
+            for p in &authentic.prior {
+                s.pull_to_vec(&p.0, None).ok()?;
+            }
+            let r1 = s.pull_to_vec(&faulted.wire(), faulted.ad.as_ref().map(|h| &h.0)).map(|(m, _)| m).map_err(|e| format!("{e:?}"));
+            if r1.is_ok() {
+                return Some((r1, None));
+            }
+            let r2 = s.pull_to_vec(&authentic.wire(), authentic.ad.as_ref().map(|h| &h.0)).map(|(m, _)| m).map_err(|e| format!("{e:?}"));
+            Some((r1, Some(r2)))
+        }
+        _ => None,
+    }
+}
+
+/// Classic copying opens called by a caller whose message buffer has a FIXED size `msg_len` (the size of the
+/// plaintext it expects) although the presented ciphertext is longer. The documented sizing is ciphertext
+/// length minus overhead, so an error or even a panic is acceptable here; ACCEPTING the extended input is not.
+/// Returns Some(true) if the call returned Ok.
+pub fn open_fixed_buffer_accepts(op: Opener, m: &Material, msg_len: usize) -> Option<bool> {
+    use Opener::*;
+    if op.kind() != m.kind || m.short_wire.is_some() {
+        return None;
+    }
+    let wire = m.wire();
+    let nonce: [u8; 24] = a(&m.nonce);
+    let key: [u8; 32] = a(&m.key);
+    let pk: [u8; 32] = a(&m.pk);
+    let sk: [u8; 32] = a(&m.sk);
+    let tag: [u8; 16] = a(&m.tag);
+    let mut buf = vec![0u8; msg_len];
+    let r = no_panic(|| match op {
+        SbOpenEasy | PcSbOpenEasy => Some(crypto_secretbox_open_easy(&mut buf, &wire, &nonce, &key).is_ok()),
+        SbOpenDetached => Some(crypto_secretbox_open_detached(&mut buf, &tag, &m.ct, &nonce, &key).is_ok()),
+        PcOpenDetachedAfternm => Some(crypto_box_open_detached_afternm(&mut buf, &tag, &m.ct, &nonce, &key).is_ok()),
+        BoxOpenEasy => Some(crypto_box_open_easy(&mut buf, &wire, &nonce, &pk, &sk).is_ok()),
+        BoxOpenDetached => Some(crypto_box_open_detached(&mut buf, &tag, &m.ct, &nonce, &pk, &sk).is_ok()),
+        SealOpen => Some(crypto_box_seal_open(&mut buf, &wire, &pk, &sk).is_ok()),
+        _ => None,
+    });
+    match r {
+        Ok(v) => v,
+        Err(_) => Some(false), // a panic is not an acceptance
+    }
+}
+
 /// `open` with panics converted into Err("panic: ..").
 pub fn open_caught(op: Opener, m: &Material) -> Option<Result<Opened, String>> {
     match no_panic(|| open(op, m)) {
